@@ -12,6 +12,10 @@ pub struct Walker<'src>
     cursor_index: usize,
     /// The walker ignores characters from this byte index onward.
     cursor_limit: usize,
+
+    /// The current nesting depth of braced blocks,
+    /// tracked by the parser.
+    pub block_nesting_depth: usize,
 }
 
 
@@ -30,6 +34,7 @@ impl<'src> Walker<'src>
 
             cursor_index: 0,
             cursor_limit: src.len(),
+            block_nesting_depth: 0,
 		};
 		
 		walker
@@ -51,6 +56,7 @@ impl<'src> Walker<'src>
 
             cursor_index: 0,
             cursor_limit: src.len(),
+            block_nesting_depth: self.block_nesting_depth,
 		};
 		
 		walker
